@@ -472,6 +472,8 @@ def describe_fmt(case, events, matched):
             return "panicked (%s) under formatter plan %s" % (ret.get("msg", "")[:120], case.get("fmt_plan"))
         if ret.get("kind") == "timeout":
             return "did not return (hang) under formatter plan %s" % case.get("fmt_plan")
+        if obs[0].get("zombie"):
+            return "returned without waiting for the formatter process it had started (plan %s): a child is left behind" % case.get("fmt_plan")
         if ret.get("kind") == "ok" and obs[0].get("tokens_sha") != obs[0].get("ref_tokens_sha"):
             return "returned a different program than with the formatter off (len %s vs %s) under plan %s" % (obs[0].get("text_len"), obs[0].get("ref_len"), case.get("fmt_plan"))
     return "events %s are not a behaviour of Format.tla for plan %s (stuck at %s)" % ([e.get("name", e.get("ev")) for e in events[1:]], case.get("fmt_plan"), json.dumps(ev)[:200])
@@ -543,6 +545,7 @@ def check_C19(tier, seed):
     # drop cases outside the domain (generator panics / errors with the formatter off)
     keep_ids = set(e["id"] for e in evs if e.get("ev") == "obs" and ("ref_tokens_sha" in e or e.get("ret", {}).get("kind") == "timeout"))
     ft = trace + ".dom"
+    cur_ok = False
     with open(ft, "w") as f:
         for e in evs:
             if e.get("id", None) in keep_ids or (e.get("ev") not in ("case", "obs") and cur_ok):
